@@ -320,8 +320,8 @@ func (g *c09gen) update() string {
 	}
 }
 
-// nested: findall(T, (G1, ..., Gn), L).  Asserted clauses are ground or guarded by atomic/1 so that the
-// outcome does not depend on whether stored clauses share variables with the asserting goal.
+// nested: findall(T, (G1, ..., Gn), L).  Asserted clauses may hold variables of the goal (bound or not at
+// that moment; some are guarded by atomic/1): a stored clause's variables are its own (D10 repaired).
 func (g *c09gen) nested() string {
 	for try := 0; try < 30; try++ {
 		savePV := g.nextPV
@@ -427,17 +427,22 @@ func (g *c09gen) nestedTry() (string, bool) {
 			args := make([]*gt, ar)
 			useVar := len(bound) > 0 && g.r.Intn(2) == 0
 			var guards []string
+			unguarded := false
 			for j := range args {
 				if useVar && g.r.Intn(2) == 0 {
 					v := pick(g.r, bound)
 					args[j] = v
-					guards = append(guards, "at "+v.wire())
+					if g.r.Intn(2) == 0 {
+						guards = append(guards, "at "+v.wire())
+					} else {
+						unguarded = true
+					}
 				} else {
 					args[j] = g.constant()
 				}
 			}
 			c := mk(name, args)
-			if len(guards) == 0 {
+			if len(guards) == 0 || unguarded {
 				c = g.wrapBody(c)
 			}
 			goals = append(goals, guards...)
